@@ -5,6 +5,7 @@ package main
 import (
 	"fmt"
 	"go/token"
+	"go/types"
 	"sort"
 	"strings"
 
@@ -153,12 +154,14 @@ func checkC11(c *Ctx) {
 		"K-C11-pad: pad length is 16 - len mod 16 with pad bytes equal to the length, built in fresh memory",
 		"T-UNPAD: the un-padder rejects empty input, pad 0, pad > 16, pad > len and compares every pad byte",
 		"FX-C11-inputs: nothing reachable from the helpers writes memory derived from key or in (including append into spare capacity)",
+		"FX-C11-retain: no function of package sm4 stores a slice it was passed (the caller's key, IV or data) in package-level state — whatever is kept across calls must be a private copy, otherwise a later call sees the caller's later writes (a key schedule cached under a key buffer the caller reuses)",
 		"G-C11-iv: the package IV is written only by SetIV, which rejects lengths other than 16",
 		"G-C11-keylen: each helper rejects keys that are not 16 bytes",
 		"B-IDX: all index/slice sites of the helpers are in bounds for every input length")
 	c.NotDec = append(c.NotDec, "byte equality with a reference implementation of the modes (follows from the chaining structure plus C05, not decided numerically)", "errors for invalid padding on decryption are ignored by the helpers (not part of this property)")
 
 	checkC11Modes(c)
+	retainedParams(c, "FX-C11-retain", "sm4")
 
 	// ---- padding
 	if p := c.Fn("sm4", "pkcs7Padding"); p != nil {
@@ -612,4 +615,71 @@ func checkUnpadDyn(c *Ctx, rule string, f *ssa.Function, data ssa.Value, bs int6
 		}
 	}
 	c.Check(okLoop, rule, fn, "every pad byte is compared", "", "the un-padder must verify all pad bytes, not only the last one: "+why, f.Pos())
+}
+
+// retainedParams: a Store whose address lies in a package-level variable and whose value is a slice parameter of the
+// function (or a re-slice of one): the package keeps a reference to caller-owned memory beyond the call.
+func retainedParams(c *Ctx, rule, pkg string) {
+	var isGlobalAddr func(v ssa.Value, d int) *ssa.Global
+	isGlobalAddr = func(v ssa.Value, d int) *ssa.Global {
+		if d > 6 {
+			return nil
+		}
+		switch x := v.(type) {
+		case *ssa.Global:
+			return x
+		case *ssa.FieldAddr:
+			return isGlobalAddr(x.X, d+1)
+		case *ssa.IndexAddr:
+			return isGlobalAddr(x.X, d+1)
+		}
+		return nil
+	}
+	var paramOf func(v ssa.Value, d int) *ssa.Parameter
+	paramOf = func(v ssa.Value, d int) *ssa.Parameter {
+		if d > 6 {
+			return nil
+		}
+		switch x := v.(type) {
+		case *ssa.Parameter:
+			if _, ok := x.Type().Underlying().(*types.Slice); ok {
+				return x
+			}
+		case *ssa.Slice:
+			return paramOf(x.X, d+1)
+		case *ssa.ChangeType:
+			return paramOf(x.X, d+1)
+		}
+		return nil
+	}
+	n := 0
+	for f := range c.P.AllFns {
+		if !inRepo(f) || f.Pkg == nil || f.Pkg.Pkg.Name() != pkg || f.Blocks == nil || strings.HasSuffix(c.P.relFile(f.Pos()), "_test.go") {
+			continue
+		}
+		instrsOf(f, func(_ *ssa.BasicBlock, in ssa.Instruction) {
+			st, ok := in.(*ssa.Store)
+			if !ok {
+				return
+			}
+			g := isGlobalAddr(st.Addr, 0)
+			if g == nil {
+				return
+			}
+			n++
+			if p := paramOf(st.Val, 0); p != nil {
+				if why, ok := retainExempt[fname(f)+"|"+g.Name()]; ok {
+					c.Holds(rule, fname(f), "store of parameter "+pname(p)+" into package variable "+g.Name(), "exempt: "+why, st.Pos())
+					return
+				}
+				c.Violated(rule, fname(f), "store of parameter "+pname(p)+" into package variable "+g.Name(), "the slice "+pname(p)+" passed by the caller is stored in the package-level variable "+g.Name()+" without a copy: the package keeps an alias of caller memory, so a later call compares or uses whatever the caller has written there since (a cached key schedule is reused for a different key in the same buffer)", st.Pos())
+			}
+		})
+	}
+	c.Holds(rule, pkg, "no slice parameter is kept in package-level state", fmt.Sprintf("%d stores into package variables inspected", n), token.NoPos)
+}
+
+// retainExempt: one named (function|variable) pair per exemption, with the invariant that justifies it
+var retainExempt = map[string]string{
+	"sm4.SetIV|IV": "installing the caller's 16-byte slice as the process-wide IV is the documented purpose of SetIV (the exported variable IV can be assigned directly as well); the interference this global causes is the known finding recorded under C20",
 }
